@@ -65,6 +65,26 @@ def impl_config(canon, z):
     return tuple(out)
 
 
+def impl_config_ids(canon, z):
+    """configuration read through the reported active ids only, following submachine ids"""
+    f = snapshot_fields(canon)
+    out = []
+
+    def walk(m):
+        ids = [int(v) for v in f['machines'][m.mid]['a'].split(',')]
+        names = []
+        for i in ids:
+            nm = [s for s in m.states if s.lib_id == i]
+            names.append(nm[0].name if nm else f'?{i}')
+        out.append((m.mid, tuple(names)))
+        for i in ids:
+            nm = [s for s in m.states if s.lib_id == i]
+            if nm and nm[0].kind == 'sub':
+                walk(nm[0].sub)
+    walk(z.root)
+    return tuple(out)
+
+
 # ---------------------------------------------------------------------------------------------
 def selection_equal(x, cfg):
     return proj(x.trace, cfg, 'GA') == proj(x.mtrace, cfg, 'GA')
@@ -324,3 +344,286 @@ def s_C03(sid, canon, intro, ctx):
 
 ORACLES.update({'C08': o_C08, 'C09': o_C09, 'C03': o_C03})
 STATE_ORACLES = {'C03': s_C03}
+
+
+# ---------------------------------------------------------------------------------------------
+def impl_pending_types(canon):
+    return snapshot_fields(canon).get('pending', [])
+
+
+def model_pending_types(w):
+    types = []
+    byserial = {}
+
+    def walk(ms):
+        for e in ms.queue:
+            if e.kind == 'e' and not e.marked:
+                byserial[e.serial] = e.name
+        for e in ms.deferred:
+            byserial[e.serial] = e.name
+        for s in ms.subs.values():
+            walk(s)
+    walk(w.root)
+    return [w.z.eid[byserial[s]] for s in sorted(byserial)]
+
+
+def reentrancy(trace):
+    """monitor (independent of the model): between the submission of serial s from inside a callback
+    and the return of that submission call no callback may run for s -- the running step is not
+    interrupted"""
+    out = []
+    stack = []
+    for t in trace:
+        if t.K == '!':
+            if t.raw.startswith('!new:'):
+                f = t.raw.split(':')
+                serial = int(f[1].split('#')[1])
+                stack.append(serial)
+            elif t.raw == '!submitted':
+                if stack:
+                    stack.pop()
+            continue
+        if stack and t.serial in stack:
+            out.append(('re-entrancy', f'event #{t.serial} was dispatched ({t.raw}) before the call that submitted it returned: the running step was interrupted'))
+            break
+    return out
+
+
+def full_proj(trace, cfg):
+    """everything, except completion guards answering false: back re-tries completion rows after every
+    handled event, backmp11 only on entry (documented difference; the answer is fixed per entry of the
+    source state, so a repeated false evaluation has no effect)"""
+    return [norm_tok(t, cfg) for t in trace if not (t.K == 'G' and t.eid == 0 and t.res == '0')]
+
+
+def o_C04(x, ctx):
+    """run-to-completion: no re-entrancy (monitor), submission order / exactly-once / right machine
+    (full trace equality with the model), nothing lost or duplicated (pending sets)"""
+    out = reentrancy(x.trace)
+    a = full_proj(x.trace, ctx.cfg)
+    b = full_proj(x.mtrace, ctx.cfg)
+    d = first_diff(a, b)
+    if d >= 0 and not out:
+        out.append(('rtc-order', f'callback sequence differs at #{d}: impl [{fmt(a)}] model [{fmt(b)}]'))
+    ip = impl_pending_types(ctx.dst_canon(x))
+    mp = model_pending_types(x.mworld)
+    if ip != mp and not out:
+        out.append(('pending', f'pending events after the call (types in submission order): impl {ip} model {mp}'))
+    if x.ledger != '-':
+        out.append(('ledger', f'ledger: {x.ledger}'))
+    if x.esc != '-':
+        out.append(('escaped', f'exception escaped: {x.esc}'))
+    return out
+
+
+ORACLES.update({'C04': o_C04})
+
+
+# ---------------------------------------------------------------------------------------------
+def blocking_kind(config, z):
+    """'terminate' / 'interrupt:<end events>' / None for the root level of an implementation configuration"""
+    term = False
+    ends = None
+    for mid, names in config:
+        m = [mm for mm in z.machines() if mm.mid == mid][0]
+        if m.mid != 0:
+            continue
+        for n in names:
+            st = [s for s in m.states if s.name == n]
+            if not st:
+                continue
+            if st[0].kind == 'terminate':
+                term = True
+            if st[0].kind == 'interrupt':
+                ends = set(st[0].end_events) if ends is None else ends | set(st[0].end_events)
+    if term:
+        return ('terminate', set())
+    if ends is not None:
+        return ('interrupt', ends)
+    return None
+
+
+def o_C11(x, ctx):
+    """blocking monitor (independent of the model) + model conformance after the interrupt"""
+    out = []
+    before = impl_config(ctx.src_canon(x), ctx.z)
+    bk = blocking_kind(before, ctx.z)
+    cb = [t for t in x.trace if t.K in 'GANXTC']
+    if bk is not None and x.op in ('pe', 'eq', 'xq', 'xs'):
+        if bk[0] == 'terminate':
+            if cb:
+                out.append(('terminated', f'a terminate state is active but {x.op} caused behaviour: {" ".join(t.raw for t in cb[:6])}'))
+        else:
+            evname = ctx.z.events[x.ev - 1] if x.op == 'pe' else None
+            if x.op == 'pe' and evname not in bk[1]:
+                if cb:
+                    out.append(('interrupted', f'an interrupt state is active and {evname} is not an end-interrupt event, but it caused behaviour: {" ".join(t.raw for t in cb[:6])}'))
+                after = impl_config(ctx.dst_canon(x), ctx.z)
+                if after != before:
+                    out.append(('interrupted', f'configuration changed while interrupted: {before} -> {after}'))
+    if out:
+        return out
+    # swallowed events are never replayed
+    w0 = ctx.c.worlds.get(x.src)
+    if w0 is not None:
+        for t in cb:
+            if t.serial in w0.swallowed:
+                out.append(('replayed', f'event #{t.serial} was swallowed by a blocking state earlier but is dispatched now: {t.raw}'))
+                break
+    a = full_proj(x.trace, ctx.cfg)
+    b = full_proj(x.mtrace, ctx.cfg)
+    d = first_diff(a, b)
+    if d >= 0 and not out:
+        out.append(('blocking-model', f'callback sequence differs at #{d}: impl [{fmt(a)}] model [{fmt(b)}]'))
+    return out
+
+
+def o_C10(x, ctx):
+    """completion transitions: fire on entry before anything pending (monitor), never no_transition,
+    priority/guards/chains as the model says"""
+    out = []
+    z = ctx.z
+    csrc = {}     # sid -> (machine, state) for simple states with completion rows
+    for m in z.machines():
+        for s in m.states:
+            if s.kind != 'sub' and any(r.evt is None and r.src == s.name for r in m.rows if not isinstance(r.src, tuple)):
+                csrc[s.sid] = (m, s)
+    toks = [t for t in x.trace if t.K != '!' and t.K != 'D']
+    for i, t in enumerate(toks):
+        if t.K == 'T' and t.eid == 0:
+            out.append(('completion-no_transition', 'no_transition invoked for a completion event'))
+        if t.K == 'N' and t.id in csrc:
+            m, s = csrc[t.id]
+            gids = {r.gid for r in m.rows if r.evt is None and r.src == s.name and r.g}
+            has_unguarded = any(r.evt is None and r.src == s.name and not r.g for r in m.rows)
+            # walk forward until the completion rows of this state are tried
+            tried = False
+            for u in toks[i + 1:]:
+                if u.eid == 0 and ((u.K == 'G' and u.id in gids) or (u.K == 'X' and u.id == t.id) or (u.K == 'A' and u.owner == m.mid)):
+                    tried = True
+                    break
+                if u.K == 'C':
+                    tried = True   # an exception aborted the step: C12's business
+                    break
+                if u.serial != t.serial and u.eid != 0 and u.serial >= 0:
+                    out.append(('completion-late', f'state sid {t.id} with completion rows was entered ({t.raw}) but {u.raw} (another event) ran before its completion rows were tried'))
+                    tried = True
+                    break
+            del has_unguarded
+    if out:
+        return out
+    a = full_proj(x.trace, ctx.cfg)
+    b = full_proj(x.mtrace, ctx.cfg)
+    d = first_diff(a, b)
+    if d >= 0:
+        out.append(('completion-model', f'callback sequence differs at #{d}: impl [{fmt(a)}] model [{fmt(b)}]'))
+        return out
+    return config_check(x, ctx)
+
+
+def o_C05(x, ctx):
+    """deferral ledger: not reported through no_transition when deferred, retained (pending sets),
+    re-offered in arrival order with the original payload (trace), exactly once"""
+    out = []
+    z = ctx.z
+    # 1. at deferral time: a pe of an event type deferred by the active configuration produces no no_transition
+    before = impl_config(ctx.src_canon(x), z)
+    if x.op == 'pe':
+        evname = z.events[x.ev - 1]
+        deferring = False
+        for mid, names in before:
+            m = [mm for mm in z.machines() if mm.mid == mid][0]
+            for n in names:
+                st = [s for s in m.states if s.name == n]
+                if st and evname in st[0].defer and not st[0].cond_defer:
+                    deferring = True
+        if deferring and ctx.family_back_root_only(before) and blocking_kind(before, z) is None:
+            mine = [t for t in x.trace if t.K != '!' and t.serial is not None and t.K == 'T']
+            if any(t.serial == max((u.serial for u in x.trace if u.K != '!' and u.serial is not None), default=-1) for t in mine):
+                pass
+            new_serial = None
+            # the driver's serial is the smallest serial not seen pending before; identify it through the model
+            if x.mworld is not None:
+                new_serial = x.mworld.next_serial - 1 - sum(1 for t in x.trace if t.K == '!' and t.raw.startswith('!new:'))
+            if new_serial is not None and any(t.K == 'T' and t.serial == new_serial for t in x.trace):
+                out.append(('deferred-no_transition', f'{evname} is deferred by the active configuration but was reported through no_transition'))
+    # 2. payload integrity
+    for t in x.trace:
+        if t.K != '!' and t.extra and 'BADPAY' in t.extra:
+            out.append(('payload', f'payload of event #{t.serial} changed: {t.raw}'))
+            break
+    # 3. same-type arrival order among the events dispatched in this call
+    lastser = {}
+    for t in x.trace:
+        if t.K == 'A' and t.serial >= 0 and t.eid > 0:
+            e = t.eid % 1000
+            if e in lastser and t.serial < lastser[e]:
+                out.append(('order', f'event #{t.serial} of type {e} handled after #{lastser[e]} of the same type although it arrived earlier'))
+                break
+            lastser[e] = max(lastser.get(e, -1), t.serial)
+    # 4. retention / exactly-once: pending sets and the callback sequence against the model
+    ip = impl_pending_types(ctx.dst_canon(x))
+    mp = model_pending_types(x.mworld)
+    if ip != mp:
+        out.append(('retention', f'pending events after the call (types in submission order): impl {ip} expected {mp}'))
+    a = full_proj(x.trace, ctx.cfg)
+    b = full_proj(x.mtrace, ctx.cfg)
+    d = first_diff(a, b)
+    if d >= 0 and not out:
+        out.append(('deferral-model', f'callback sequence differs at #{d}: impl [{fmt(a)}] model [{fmt(b)}]'))
+    # 5. at quiescence no event stays pending in a configuration that neither defers it nor blocks
+    return out
+
+
+ORACLES.update({'C05': o_C05, 'C10': o_C10, 'C11': o_C11})
+
+
+# ---------------------------------------------------------------------------------------------
+def o_C12(x, ctx):
+    """exceptions: contained, exception_caught exactly once per fault with the event being
+    processed, nothing of the aborted transition afterwards, no no_transition from the catching
+    level, policy-prescribed configuration, machine not wedged (continuations follow the model)"""
+    out = []
+    if x.esc != '-':
+        out.append(('escaped', f'exception escaped from {x.op}: {x.esc}'))
+    toks = x.trace
+    nthrow = sum(1 for t in toks if t.K == '!' and t.raw == '!throw')
+    ncaught = sum(1 for t in toks if t.K == 'C')
+    if x.op not in ('start', 'stop'):
+        if nthrow != ncaught and x.esc == '-':
+            out.append(('exception_caught-count', f'{nthrow} fault(s) injected but exception_caught invoked {ncaught} time(s)'))
+        for i, t in enumerate(toks):
+            if t.K == '!' and t.raw == '!throw':
+                thrower = toks[i - 1]
+                nxt = toks[i + 1] if i + 1 < len(toks) else None
+                if nxt is None or nxt.K != 'C':
+                    out.append(('aborted-transition-continues', f'after the fault in {thrower.raw} the next record is {nxt.raw if nxt else "nothing"} instead of exception_caught'))
+                    continue
+                if nxt.serial != thrower.serial or (nxt.eid % 1000) != (thrower.eid % 1000):
+                    out.append(('exception_caught-event', f'exception_caught received {nxt.raw} while {thrower.raw} was being processed'))
+                for u in toks[i + 2:]:
+                    if u.K == 'T' and u.owner == nxt.owner and u.serial == nxt.serial and u.serial >= 0:
+                        out.append(('no_transition-after-exception', f'machine {u.owner} caught the exception for event #{u.serial} and then reported no_transition for it'))
+                        break
+    if out:
+        return out
+    a = full_proj(x.trace, ctx.cfg)
+    b = full_proj(x.mtrace, ctx.cfg)
+    d = first_diff(a, b)
+    if d >= 0:
+        out.append(('exception-model', f'callback sequence differs at #{d}: impl [{fmt(a)}] model [{fmt(b)}]'))
+        return out
+    if not ret_status_ok(x):
+        out.append(('status', f'result code impl={x.ret} model={x.mret}'))
+    ic = impl_config_ids(ctx.dst_canon(x), ctx.z)
+    mc = x.mworld.config_ids()
+    if ic != mc and x.mworld.started:
+        out.append(('config', f'active state ids after the call impl {ic} model {mc} (active-state-switch policy)'))
+    ip = impl_pending_types(ctx.dst_canon(x))
+    mp = model_pending_types(x.mworld)
+    if ip != mp:
+        out.append(('pending', f'pending events after the call: impl {ip} model {mp}'))
+    return out
+
+
+ORACLES.update({'C12': o_C12})
